@@ -345,7 +345,7 @@ PLAN = {
         twins=SRC_TWINS,
         kani=klex_suite('K-lex partial lexing', ('part',), ['Q1', 'Q2', 'Q3', 'Q4', 'B1', 'B2', 'E1', 'E3', 'S2', 'U1'],
                         covers=['partial lexer committed an item', 'partial lexer asked for more input'], quick_per_def=6,
-                        always=['part_Q4__3b_0a_q_k2', 'part_Q4_a_2e_q_k2'],
+                        always=['part_Q4__3b_0a_q_k2', 'part_Q4_a_2e_q_k2', 'part_Q3__23ab_20x_q_k2', 'part_Q3__23abc_20x_q_k3'],
                         bounded='relational: partial lexer over S[..k] vs one-shot lexer over S, every split point k of concrete contexts with a symbolic continuation byte; definitions Q1 (tests/partial.rs), B1, B2, E1, S2, U1'),
         technique='relational bounded model checking (Kani): partial lexer on every prefix vs the one-shot lexer; Verus proof (V-src + V-lex) that a partial None leaves a well-formed empty span at or after the attempt start, in the runtime and in the generated code of the corpus definitions, for all inputs',
         level_text='Commit clause: whatever a partial lexer yields equals the one-shot item (result, variant, span) and a None leaves an empty span at a position not past the next one-shot item; bounded. The promptness clause is not decided.',
